@@ -657,7 +657,10 @@ def check_core_scope_semantics(col, rule: str, repo: Repo):
             "in the same block chain reuses the loop, after _gc.get_rep was consulted", qs.loc)
     # code_fill_ttree's local set_scope: stay where the value was computed only if that is inside the fill scope
     cf = repo.method("query_ast_visitor", "code_fill_ttree")
-    hs = [n for n in ast.walk(cf.node) if isinstance(n, ast.FunctionDef) and n.name == "set_scope"]
+    # (the nested two-parameter helper whose body chooses between two self._gc.set_scope(..) calls - whatever it is called)
+    hs = [n for n in ast.walk(cf.node) if isinstance(n, ast.FunctionDef) and n is not cf.node and len(n.args.args) == 2
+          and sum(1 for c in ast.walk(n) if isinstance(c, ast.Call) and src(c.func) == "self._gc.set_scope") == 2]
+    hname = hs[0].name if len(hs) == 1 else "set_scope"
     ok = len(hs) == 1
     if ok:
         h = hs[0]
@@ -667,8 +670,8 @@ def check_core_scope_semantics(col, rule: str, repo: Repo):
             and src(ifs[0].orelse[0].value) == f"self._gc.set_scope({b})"
     col.add(rule, "query_ast_visitor.code_fill_ttree", "column-set-where-computed-if-inside-the-fill-scope-else-at-it", ok,
             "a column is assigned at the scope of its value when that scope lies inside the fill scope, otherwise at the fill scope", cf.loc)
-    calls = [c for c in ast.walk(cf.node) if isinstance(c, ast.Call) and isinstance(c.func, ast.Name) and c.func.id == "set_scope"]
-    ok = sorted(src(c).replace(" ", "") for c in calls) == ["set_scope(e_rep.scope(),scope_fill)", "set_scope(scope,scope_fill)"]
+    calls = [c for c in ast.walk(cf.node) if isinstance(c, ast.Call) and isinstance(c.func, ast.Name) and c.func.id == hname]
+    ok = sorted(",".join(src(a_).replace(" ", "") for a_ in c.args) for c in calls) == ["e_rep.scope(),scope_fill", "scope,scope_fill"]
     col.add(rule, "query_ast_visitor.code_fill_ttree", "placement-uses-the-value's-own-scope", ok,
             f"placements found: {[src(c) for c in calls]}", cf.loc)
 
